@@ -8,7 +8,7 @@ CHECKS = {
  "C02": ("proof for field decoding, sign extension, the info line, the .inf line, the catalogue header (title, cycle, boot option, total sectors) and the ordering key of cat", "std::sort itself, cat column layout, show-titles outside the verified set (DESIGN.md C02)"),
  "C03": ("proof: table lemma, line lemmas against the doc-derived monitor, framing lemma over an unbounded ghost file", "stdio model, token oracle from the pinned golden map, files <= 16 MiB"),
  "C04": ("proof: FileView position formula per (take, leave) geometry, byte offset of container sectors, view construction of .ssd/.sdd/.dsd/.ddd/.mmb, one drive per view, dump-sector argument check and address", "geometry *selection* plumbing (filter_formats, min_element) outside the verified set"),
- "C05": ("proof for the bit level (bit order, stride/offset addressing, copy_hfe v1, MFM byte), track-list completeness, track length rounding and both flux adapters' address lookup; the end-to-end 'same sectors as the .ssd' clause is undecided", "copy_hfe for HFEv3, read_all_sectors, compute_geometry outside (DESIGN.md C05)"),
+ "C05": ("proof for the bit level (bit order, stride/offset addressing, copy_hfe for HFE v1 and v3 opcodes with the decoding state carried across side blocks, MFM byte), track-list completeness, track length rounding and both flux adapters' address lookup; the end-to-end 'same sectors as the .ssd' clause is undecided", "the rest of read_all_sectors and compute_geometry outside; the width of a SKIPBITS operand is taken from the code (DESIGN.md C05)"),
  "C06": ("proof: CRC-16/CCITT step and fold, scan_for (first match, window contents), MFM and FM byte / copy functions, check_crc_with_a1s / get_crc, and both decoder state machines (every yielded sector: ID and data fields passed the CRC, data field belongs to that ID field, data exactly between mark and CRC); image-level lookup by address", "read_all_sectors and std::sort outside; CRC blocks <= 24 bytes quick / 261 bytes thorough; termination of the decoder loops not proved"),
  "C07": ("proof of function-level safety for the extracted parsers on arbitrary bytes, bounded allocation, termination of the HxC/MMB/track loops, exceptions by value, no exception escaping SurfaceSelector::parse, FileView::read_block on unformatted views (reduced scope, see DESIGN.md C07)", "whole-program clause (exit status, signals) is outside any contract"),
  "C08": ("proof: safety obligations of every basic/ function for arbitrary bytes, exit status in {0,1}, non-zero => diagnostic", "libc modelled (stdio, getopt, strtol, strcmp); <= 64 argv words"),
